@@ -45,6 +45,13 @@ func (C01) Gen(rt *rapid.T, tier string) any {
 			r2.Path = "/simroot1"
 		}
 		cfg.Roots = append(cfg.Roots, r2)
+	} else if len(cfg.DirsToSkip) > 0 && cfg.Roots[0].Path != "" && rapid.IntRange(0, 2).Draw(rt, "siblingroot") == 2 {
+		// the skip list is spelled under the second of two real roots whose directory names share
+		// a string prefix (/simroot, /simroot0); Scan refuses requested paths with several roots,
+		// so this is the only multi-root use of absolute paths
+		t0 := genTree(rt, TreeOpts{MaxNodes: 5, MaxDepth: 2, Gitignore: true}, "t0")
+		cfg.Roots = []RootSpec{{Tree: t0, Path: "/simroot"}, cfg.Roots[0]}
+		cfg.PathsRoot = 1
 	}
 	return cfg
 }
@@ -254,11 +261,13 @@ func (C01) Run(t *testing.T, sc any) *sim.Outcome {
 
 	// candidates that must not be extracted
 	cands := 0
-	cfg.Roots[0].Tree.WalkTree(func(p string, x *Node) {
-		if x.Kind == "file" || x.Kind == "symlink" {
-			cands += len(cfg.Extractors)
-		}
-	})
+	for _, r := range cfg.Roots {
+		r.Tree.WalkTree(func(p string, x *Node) {
+			if x.Kind == "file" || x.Kind == "symlink" {
+				cands += len(cfg.Extractors)
+			}
+		})
+	}
 	nExp := 0
 	for _, v := range ref.Extracts {
 		nExp += v
@@ -308,6 +317,6 @@ func (C01) Run(t *testing.T, sc any) *sim.Outcome {
 			}
 		}
 	}
-	out.Sample = map[string]any{"tree": cfg.Roots[0].Tree.String(), "config": configSummary(cfg), "expected_extractions": sortedKeys(ref.Extracts), "seam_events": len(obs.Events)}
+	out.Sample = map[string]any{"tree": cfg.Roots[cfg.PathsRoot].Tree.String(), "config": configSummary(cfg), "expected_extractions": sortedKeys(ref.Extracts), "seam_events": len(obs.Events)}
 	return out
 }
